@@ -511,7 +511,8 @@ def validateShape (a : Air) (c : Config) (pp : ProofWithPis) (degreeBits numCtlH
         (if ctlZsFirstMustMatch then ensure (o.ctlZsFirst.isSome == a.requiresCtls) else .accept),
         ensure (o.localValues.length == a.cols), ensure (o.nextValues.length == a.cols),
         (match o.quotientPolys with
-         | some q => ensure (q.length == numQuotientPolys a c)
+         -- F-C18-6 repaired in /repo: quotient openings are present iff there are quotient polynomials
+         | some q => ensure (0 < numQuotientPolys a c && q.length == numQuotientPolys a c)
          | none => ensure (numQuotientPolys a c == 0)) ] ++ checkLookupOptions a c p nlc numCtlHelpers numCtlZs)
 
 /-! ### FRI instance and verification -/
